@@ -9,9 +9,9 @@ use std::sync::atomic::{AtomicU64, Ordering};
 use std::time::{Duration, Instant, SystemTime};
 use vkit::{bad, ok, ok_trivial, Run, Verdict};
 
-const CALL_DEADLINE_S: f64 = 2.0;
+const CALL_DEADLINE_S: f64 = 20.0; // generous: a loaded machine may deschedule us for seconds; a real hang is caught by the watchdog
 /// whole case (3 steps, possibly two git processes on a loaded machine)
-const CASE_WATCHDOG_S: f64 = 8.0;
+const CASE_WATCHDOG_S: f64 = 45.0;
 
 #[derive(Serialize, Deserialize, Hash, Clone, Debug, PartialEq, Eq)]
 enum Use {
